@@ -136,7 +136,7 @@ func runDelUpd(r *report.Run, i int, rng *report.Rand) {
 }
 
 func runConc(r *report.Run, i int, rng *report.Rand) {
-	k := 2 + i%7            // goroutines = fragments
+	k := 2 + i%7           // goroutines = fragments
 	variant := (i / 7) % 4 // 0 plain, 1 forced at the hook points, 2 every fragment from two goroutines, 3 delete vs update
 	if variant == 3 {
 		runDelUpd(r, i, rng)
@@ -170,7 +170,7 @@ func runConc(r *report.Run, i int, rng *report.Rand) {
 	forcedPoint := ""
 	rv := &rendezvous{}
 	if variant == 1 {
-		if (i/21)%2 == 0 {
+		if (i/28)%2 == 0 {
 			forcedPoint = "storage.push.after_part" // all start on an empty store: two inserts of the same record
 		} else {
 			forcedPoint = "storage.push.frag.after_part" // record exists: two read-modify-updates of its part list
